@@ -696,13 +696,15 @@ def r4(ctx: Ctx) -> None:
                         cvars.add(a.id)
         defs = [n for n in g.nodes if n.kind == "stmt" and isinstance(n.ast, ast.Assign)
                 and any(isinstance(t, ast.Name) and t.id in cvars for t in n.ast.targets)]
-        ok = False
+        # `= None` (no filter given) is the other arm of `X if expressions else None`
+        defs = [d_ for d_ in defs if not (isinstance(d_.ast.value, ast.Constant) and d_.ast.value.value is None)]  # type: ignore[union-attr]
+        ok = bool(defs)
         for dnode in defs:
             org = sl.origins(dnode.ast.value, dnode.id)  # type: ignore[union-attr]
             names = {(dotted(c.func) or "") for c in org["calls"] if isinstance(c, ast.Call)}
-            ok = "to_pyarrow_compute_expression" in names and "parse_filter_dict" in names
+            ok = ok and "to_pyarrow_compute_expression" in names and "parse_filter_dict" in names
         ctx.ob("C12.R4", f, "compute_expr = to_pyarrow_compute_expression(parse_filter_dict(filter))", defs[0] if defs else None,
-               ok and len(defs) == 1 and bool(sinks), "every API builds the predicate with the same two functions")
+               ok and bool(sinks), "every API builds the predicate with the same two functions")
         for s in sinks:
             passed = bool(cvars & names_in(s.ast))
             ctx.ob("C12.R4", f, "the expression is handed to the reader helper", s, passed, "")
